@@ -170,6 +170,12 @@ class ListWrapper(typing.MutableSequence[T]):
         for v in other:
             self.append(v)
 
+    def reverse(self) -> None:
+        # Reordering changes no ownership, so no hook runs. The mixin version
+        # swaps elements through __setitem__, which would treat every swap as
+        # a removal and an insertion.
+        self._data.reverse()
+
     # end functions for ABC
     def __str__(self) -> str:
         return str(self._data)
